@@ -19,16 +19,24 @@ func init() {
 // starts). Any influence observed while entering that height must satisfy the same predicate, judged
 // against the new height.
 func C08_FutureMessage() {
-	kind := env.Param("kind") // 0 PP, 1 P, 2 C
+	kind := env.Param("kind") // 0 PP, 1 P, 2 C, 3 VC (proof-less)
 	me := env.Choice("me", 4)
-	wd := newWorld(me, equalWeights(4))
+	wd := newWorld(me, paramWeights())
 	n, ref := wd.n, wd.ref
 	myId := byte(me + 1)
 	hdr := newSymRef("m")
-	snd := newSymSender(wd.reg, "s", uint64(hdr.height), hdr.raw)
+	var snd *symSender
+	if kind != 3 {
+		snd = newSymSender(wd.reg, "s", uint64(hdr.height), hdr.raw)
+	}
 	var raw *interfaces.ConsensusRawMessage
 	shareOK := func() bool { return true }
 	switch kind {
+	case 3:
+		vh := &protocol.ViewChangeHeaderBuilder{MessageType: hdr.typ, InstanceId: hdr.instance, BlockHeight: hdr.height, View: hdr.view}
+		snd = newSymSender(wd.reg, "s", uint64(hdr.height), vh.Build().Raw())
+		c := (&protocol.ViewChangeMessageContentBuilder{SignedHeader: vh, Sender: snd.b}).Build()
+		raw = interfaces.NewViewChangeMessage(c, nil).ToConsensusRawMessage()
 	case 0:
 		c := (&protocol.PreprepareContentBuilder{SignedHeader: hdr.b, Sender: snd.b}).Build()
 		raw = interfaces.NewPreprepareMessage(c, symBlock("blk")).ToConsensusRawMessage()
@@ -62,7 +70,7 @@ func C08_FutureMessage() {
 	}
 	env.Reach("C08.future.influence")
 	H := primitives.BlockHeight(b + 1)
-	K := []string{"PP", "P", "C"}[kind]
+	K := []string{"PP", "P", "C", "VC"}[kind]
 	env.Assert("C08."+K+".sig", snd.isValid())
 	env.Assert("C08."+K+".member", ref.member(snd.id))
 	env.Assert("C08."+K+".not_own", snd.id != myId)
@@ -75,6 +83,8 @@ func C08_FutureMessage() {
 		env.Assert("C08.P.not_leader", snd.id != ref.leader(hdr.view))
 	case 2:
 		env.Assert("C08.C.share", shareOK())
+	case 3:
+		env.Assert("C08.VC.to_me", ref.leader(hdr.view) == myId)
 	}
 }
 
@@ -106,6 +116,9 @@ func newWorld(me int, w []uint64) *vWorld {
 //   0 fresh; 1 accepted the view-0 proposal; 2 prepared in view 0; 3 timed out to view 1 without lock;
 //   4 timed out to view 1 holding a lock; 5 committed in view 0;
 //   6 accepted the view-0 proposal and holds two genuine COMMITs for it (no quorum), not prepared
+//   7 accepted the view-0 proposal (not prepared), then timed out to view 1
+//   8 (me >= 1) timed out up to the first view it leads and was elected there by genuine proof-less votes of two
+//     other members: it has sent its NEW_VIEW with a fresh block; the third member's vote is still outstanding
 func (wd *vWorld) prefix(p int) {
 	n, net := wd.n, wd.net
 	wd.blk = &stub.Block{H: 1, Tag: 0x21, ProposalOK: true}
@@ -116,7 +129,7 @@ func (wd *vWorld) prefix(p int) {
 			others = append(others, i)
 		}
 	}
-	if p == 1 || p == 2 || p == 4 || p == 5 {
+	if p == 1 || p == 2 || p == 4 || p == 5 || p == 7 {
 		if wd.me != 0 {
 			n.deliver(net.ppm(0, 1, 0, wd.blk).ToConsensusRawMessage())
 		}
@@ -134,8 +147,18 @@ func (wd *vWorld) prefix(p int) {
 			n.deliver(net.cm(i, 1, 0, hash).ToConsensusRawMessage())
 		}
 	}
-	if p == 3 || p == 4 {
+	if p == 3 || p == 4 || p == 7 {
 		n.timeout()
+	}
+	if p == 8 {
+		for t := 0; t < wd.me; t++ {
+			n.timeout()
+		}
+		for k, i := range othersOf(wd.me) {
+			if k < 2 {
+				n.deliver(net.vcm(i, 1, primitives.View(wd.me), nil).ToConsensusRawMessage())
+			}
+		}
 	}
 	if p == 6 {
 		if wd.me != 0 {
@@ -158,7 +181,7 @@ func C08_OneMessage() {
 	if p == 5 && me == 0 {
 		// the leader commits as well; keep it
 	}
-	wd := newWorld(me, equalWeights(4))
+	wd := newWorld(me, paramWeights())
 	wd.prefix(p)
 	n, ref := wd.n, wd.ref
 	cur := n.m.state.HeightView()
